@@ -156,7 +156,8 @@ Inductive tok :=
 (* ---------------------------------------------------------------- the printer *)
 
 Record style := { needs : kind -> nat -> kind -> bool;    (* parent kind, position class, child kind *)
-                  keep_spec : bool }.                      (* is the format spec of an f-string field printed *)
+                  keep_spec : bool;                        (* is the format spec of an f-string field printed *)
+                  short_idx : bool }.                      (* x[a,] keeps its comma, x[()] its parentheses (else: x[a], x[]) *)
 
 Definition wrap (b : bool) (ts : list tok) : list tok := if b then TLP :: ts ++ [TRP] else ts.
 
@@ -200,7 +201,11 @@ Definition layout (st : style) (l : label) (ws : list (list tok)) : list tok :=
            | KSubscript => match ws with [v; s] => v ++ TLB :: s ++ [TRB] | _ => [] end
            | KTuple => match ws with [a] => TLP :: a ++ [TTrail; TRP] | _ => TLP :: sep_by TComma ws ++ [TRP] end
            | KList => TLB :: sep_by TComma ws ++ [TRB]
-           | KIdxTuple => sep_by TComma ws
+           | KIdxTuple => match ws with
+                          | [] => if short_idx st then [TLP; TRP] else []
+                          | [w] => if short_idx st then w ++ [TTrail] else w
+                          | _ => sep_by TComma ws
+                          end
            | KStarArg | KStarElt => TStar :: concat ws
            | _ => []
            end
@@ -218,9 +223,9 @@ Fixpoint print (st : style) (e : expr) : list tok :=
   match e with Node l cs => layout st l (wrap_children (print st) st (kind_of l) 0 cs) end.
 
 (* the reference style: parentheses exactly where the grammar needs them; everything printed *)
-Definition ref_style : style := {| needs := ref_needs; keep_spec := true |}.
+Definition ref_style : style := {| needs := ref_needs; keep_spec := true; short_idx := true |}.
 (* a style that parenthesises every expression child (used to validate "redundant parentheses preserve the parse") *)
-Definition full_style : style := {| needs := fun _ _ c => expr_kindb c; keep_spec := true |}.
+Definition full_style : style := {| needs := fun _ _ c => expr_kindb c; keep_spec := true; short_idx := true |}.
 
 (* ---------------------------------------------------------------- text of a token list (what ast2src returns) *)
 
@@ -288,7 +293,7 @@ Definition arity_ok (l : label) (n : nat) : bool :=
            | KCall => 1 <=? n
            | KSubscript => n =? 2
            | KTuple | KList => true
-           | KIdxTuple => 2 <=? n        (* x[a,] and x[()] are printed wrongly by the code: known findings *)
+           | KIdxTuple => true
            | KStarArg | KStarElt => n =? 1
            | _ => false
            end
@@ -304,6 +309,11 @@ Fixpoint wf (e : expr) : bool :=
 Fixpoint spec_free (e : expr) : bool :=
   match e with Node l cs => match l with LFormatted _ (Some _) => false | _ => true end && forallb spec_free cs end.
 Definition spec_ok (st : style) (e : expr) : bool := keep_spec st || spec_free e.
+
+(* a style that prints index tuples of fewer than two elements like their element / like nothing prints only longer ones faithfully *)
+Fixpoint long_idx (e : expr) : bool :=
+  match e with Node l cs => match l with LOp KIdxTuple => 2 <=? length cs | _ => true end && forallb long_idx cs end.
+Definition idx_ok (st : style) (e : expr) : bool := short_idx st || long_idx e.
 
 Fixpoint kinds_ok (ok : kind -> bool) (e : expr) : bool :=
   match e with Node l cs => ok (kind_of l) && forallb (kinds_ok ok) cs end.
@@ -355,4 +365,4 @@ Fixpoint covers (st : style) (e : expr) : bool :=
   match e with Node l cs => covers_children st (kind_of l) 0 cs && forallb (covers st) cs end.
 
 (* well-formed, adequately parenthesised, nothing dropped *)
-Definition good (st : style) (e : expr) : bool := wf e && covers st e && spec_ok st e.
+Definition good (st : style) (e : expr) : bool := wf e && covers st e && spec_ok st e && idx_ok st e.
